@@ -193,7 +193,12 @@ def match_unit(world, unit, o, obs):
     """Strict padding rules first (minimal padding that leaves the next
     block aligned); only if that fails, padding that was computed for the
     pre-layout address (judged by C10)."""
-    res, err = _match_unit(world, unit, o, obs, True)
+    # first: padding only directly in front of the block whose alignment it
+    # serves (three nops in a row - program, patch, padding - are otherwise
+    # interchangeable)
+    res, err = _match_unit(world, unit, o, obs, "adjacent")
+    if res is None:
+        res, err = _match_unit(world, unit, o, obs, True)
     if res is None:
         # ... still preferring padding that is a block of its own
         res, err = _match_unit(world, unit, o, obs, "own-block")
@@ -280,7 +285,8 @@ def _pad_ok(world, o, obs, r, p, final=False, strict=True):
     if not covered:
         return False
     if strict and not any(
-        off == r and size == p and obs.align.get(b.uuid, 1) <= 1 and (obs.pre_blocks is None or b.uuid not in obs.pre_blocks) for (b, off, size, kind) in o.blocks
+        off == r and size == p and obs.align.get(b.uuid, 1) <= 1 and (obs.pre_blocks is None or b.uuid not in obs.pre_blocks) and not any(True for _ in b.references)
+        for (b, off, size, kind) in o.blocks
     ):
         # the library covers padding with a fresh block of its own (which
         # carries no alignment requirement itself; padding of an earlier
@@ -305,6 +311,8 @@ def _pad_ok(world, o, obs, r, p, final=False, strict=True):
     if al <= 1:
         return False
     if not at_end:
+        if strict == "adjacent":
+            return False
         # cannot re-derive the address arithmetic of the join: only the
         # size bound applies
         return p < al
